@@ -27,6 +27,9 @@ ASSUMPTIONS = [
     "a real call that does not return within the alarm (20 s; 2 s once the captured arguments of _n_to_assign_annotators "
     "already show sum(n_max_chosen) < batch_size) is recorded as non-termination",
     "n_annotators_per_sample >= 1 (ints are validated by the code, arrays are generated that way)",
+    "theorems are over an exact linear ordered field: the forced top value max+1 exceeds max and rank + u with u in [0,1) stays "
+    "below rank + 1 (IEEE rounding / overflow corners of these two additions are executed faithfully by the driver at Float "
+    "but are outside the theorems); rand_argmax noise is assumed strictly positive (2^-53 corner, see C18)",
     "the wrapped single-annotator strategy obeys its own contract (distinct picks, non-NaN utility at each pick); cases where "
     "it does not are counted and left to C01/C02",
 ]
@@ -39,7 +42,8 @@ TRUSTED = [
 ALARM_S = 20
 SHORT_ALARM_S = 2
 
-# availability matrix with an all-False row, batch_size=1: diverges when the inner strategy picks sample 0
+# availability matrix with an all-False row, batch_size=1: _n_to_assign_annotators did not terminate before repair
+# 6c5fda89 when the inner strategy picks sample 0 (kept as a regression case)
 MINIMAL_DIVERGENCE = dict(
     X=[[0.0, 1.0], [2.0, 3.0], [4.0, 5.0]], y=[[None, None], [None, None], [None, None]], cmode="none", amode="mat",
     candidates=None, annotators=[[False, False], [True, True], [True, True]], int_y=False, batch_size=1, naps=1,
@@ -338,7 +342,7 @@ def run_wrapper(prob, inner_name, alarm_s=ALARM_S, short_alarm=True):
                 nmax = np.sum(np.asarray(A) != 0, axis=1)[np.asarray(s_indices)]
                 if float(np.sum(nmax)) < float(batch_size):
                     signal.alarm(SHORT_ALARM_S)   # the loop's own exit condition is unreachable: no need to wait 20 s
-                    spy["predicted_divergence"] = True
+                    spy["saturated"] = True
             except Exception:
                 pass
         r = real_nas(batch_size, A, s_indices, pref_n_annotators)
@@ -490,7 +494,8 @@ def oracle(ctx, cls, prob, res, inner_name=None, selectable_only=False):
     if Q.ndim != 2 or Q.shape[1] != 2 or Q.dtype.kind not in "iu":
         bad = ("shape", f"query_indices has shape {Q.shape} dtype {Q.dtype}, expected integer (k, 2)")
     elif Q.shape[0] != k:
-        bad = ("batch-size", f"returned {Q.shape[0]} pairs, expected min(batch_size, #available pairs) = {k}")
+        what = "#pairs of fully available samples" if selectable_only else "#available pairs"
+        bad = ("batch-size", f"returned {Q.shape[0]} pairs, expected min(batch_size, {what}) = {k}")
     else:
         got = [(int(a), int(b)) for a, b in Q]
         if len(set(got)) != len(got):
@@ -562,6 +567,9 @@ def wrapper_case(ctx, lines, expect, prob, inner_name, alarm_s=ALARM_S, short_al
     ctx.count("wrapper_inner_" + inner_name)
     ctx.count("wrapper_status_" + st.split(":")[0].replace(" ", "_") + ("" if not st.startswith("err other") else "_" + st.split(":")[1]))
     ctx.count("naps_" + ("int" if isinstance(prob["naps"], int) else "array"))
+    if spy.get("saturated"):
+        # sum(n_max_chosen) < batch_size: before repair 6c5fda89 the loop never exited here
+        ctx.count("wrapper_saturated_assign_" + st.split(":")[0].replace(" ", "_"))
     ctx.count("A_perf_" + ("none" if prob["A_perf"] is None else "vector" if not isinstance(prob["A_perf"][0], list) else "matrix"))
     if prob["batch_size"] >= len(pairs):
         ctx.count("batch_ge_pairs")
@@ -621,10 +629,12 @@ def wrapper_case(ctx, lines, expect, prob, inner_name, alarm_s=ALARM_S, short_al
         impl = st
     lines.append(line)
     expect.append((" ".join(impl.split()), case))
-    if res["inner_ok"] or st != "ok":
+    if res["inner_ok"]:
         oracle(ctx, "SingleAnnotatorWrapper", prob, res, inner_name)
     else:
-        ctx.count("oracle_skipped_inner_contract")
+        # the wrapped strategy returned duplicate picks / a NaN pick (C01/C02 territory, e.g. CoreSet on labeled
+        # candidates): outside C07's precondition, whatever the wrapper then does (model and code still have to agree)
+        ctx.count("oracle_skipped_inner_contract" + ("" if st == "ok" else "_" + st.split(":")[0].replace(" ", "_")))
 
 
 def iet_case(ctx, lines, expect, prob, alarm_s=ALARM_S):
@@ -743,14 +753,15 @@ def correspond(ctx):
         c, a = combos[i % 9]
         prob = make_problem(rng, c, a, int_y=True)
         wrapper_case(ctx, lines, expect, prob, "RandomSampling")
-    # availability matrices with a row without any available annotator (the loop may not terminate):
-    # few of them, because every non-terminating call costs an alarm
-    n_empty = 6 if not ctx.thorough else 40
+    # availability matrices with a row without any available annotator (saturated assignment when the inner
+    # strategy selects such a sample; a non-terminating call would cost an alarm each)
+    n_empty = 60 if not ctx.thorough else 600
     for i in range(n_empty):
-        prob = make_problem(rng, ["none", "idx", "feat"][i % 3], "mat", empty_rows=True)
-        prob["batch_size"] = rng.choice([1, 1, 2, prob["batch_size"]])
-        wrapper_case(ctx, lines, expect, prob, "RandomSampling")
-    # the minimal reproducer of the non-termination (run every time so the finding is seed independent):
+        prob = make_problem(rng, ["none", "idx", "feat"][i % 3], "mat", empty_rows=True, near_pairs=(i % 4 == 3))
+        if i % 4 != 3:
+            prob["batch_size"] = rng.choice([1, 1, 2, 3, prob["batch_size"]])
+        wrapper_case(ctx, lines, expect, prob, "RandomSampling" if i % 2 == 0 else rng.choice(FAST_INNER))
+    # the former minimal reproducer of the non-termination (regression case, run every time):
     # sample 0 has no available annotator; RandomSampling(random_state=0) picks it first
     for seed in (0, 2):
         wrapper_case(ctx, lines, expect, dict(MINIMAL_DIVERGENCE, seed=seed), "RandomSampling")
@@ -767,7 +778,52 @@ def correspond(ctx):
         c, a = combos[i % 9]
         prob = make_problem(rng, c, a, int_y=(i % 2 == 1), empty_rows=(rng.random() < 0.2))
         transform_lines(ctx, lines, expect, prob)
+    if ctx.thorough:
+        exhaustive_small_scope(ctx, lines, expect)
     compare(ctx, lines, expect)
+
+
+def exhaustive_small_scope(ctx, lines, expect):
+    """Thorough tier: every argument combination over a small finite space.
+    (a) `_validate_data` + `_transform_cand_annot`: 2 samples x 2 annotators, all 16 missing patterns x all candidate
+        specs x all annotator specs (all index subsets, all Boolean matrices) x float/int y;
+    (b) full wrapper queries: 2 unlabeled samples x 2 annotators, candidates=None, all 15 non-empty Boolean
+        availability matrices x batch sizes 1..3 (includes every all-False-row pattern)."""
+    import itertools
+
+    X = [[0.0, 1.0], [2.0, 3.0]]
+    n_a = 0
+    cand_specs = [("none", None), ("idx", [0]), ("idx", [1]), ("idx", [0, 1]), ("feat", [[0.5, 0.5]]), ("feat", [[0.5, 0.5], [1.5, 0.0]])]
+    for pat in itertools.product([None, 0], repeat=4):
+        y = [[pat[0], pat[1]], [pat[2], pat[3]]]
+        y_used = y
+        for cmode, cand in cand_specs:
+            n_cand = 2 if cmode == "none" else len(cand)
+            annot_specs = [("none", None), ("idx", [0]), ("idx", [1]), ("idx", [0, 1])]
+            for bitsM in itertools.product([False, True], repeat=2 * n_cand):
+                annot_specs.append(("mat", [list(bitsM[2 * r: 2 * r + 2]) for r in range(n_cand)]))
+            for amode, annot in annot_specs:
+                for int_y in (False, True):
+                    prob = dict(X=X, y=y_used, cmode=cmode, amode=amode, candidates=cand, annotators=annot, int_y=int_y,
+                                batch_size=3, naps=1, A_perf=None, seed=0)
+                    transform_lines(ctx, lines, expect, prob)
+                    n_a += 1
+    n_b = 0
+    y = [[None, None], [None, None]]
+    for bitsM in itertools.product([False, True], repeat=4):
+        M = [list(bitsM[0:2]), list(bitsM[2:4])]
+        if not any(bitsM):
+            continue
+        for b in (1, 2, 3):
+            prob = dict(X=X, y=y, cmode="none", amode="mat", candidates=None, annotators=M, int_y=False, batch_size=b,
+                        naps=1, A_perf=None, seed=0)
+            wrapper_case(ctx, lines, expect, prob, "RandomSampling")
+            n_b += 1
+    ctx.notes["exhaustive_subrun"] = (
+        f"(a) {n_a} _transform_cand_annot cases: all 2x2 missing patterns x 6 candidate specs x all annotator specs "
+        f"(index subsets, every Boolean matrix); (b) {n_b} wrapper queries: all non-empty 2x2 availability matrices x batch 1..3"
+    )
+    ctx.exhaustive = False  # the random part is not exhaustive; the sub-run above is
 
 
 def search(ctx):
